@@ -27,6 +27,9 @@ EW = "libwild::elf_writer::"
 
 def run(ctx, rep):
     F = ctx.facts(); P = ctx.program()
+    rep.rule("position-accounting", "in write_eh_frame_relocations the accumulator that is finally added to eh_frame_start_address is advanced by n after every "
+             "take_eh_frame_data(n), and no bytes are taken after the base was advanced: the running base equals the bytes actually emitted, so later "
+             "sections' table entries and pc-relative fields use the address their bytes really have")
     rep.rule("sorted", "the entry table is sorted as a whole by the signed initial-location field, after all writers finished")
     rep.rule("pairing", "a header-table entry is taken for every kept FDE, before its bytes are copied, and only for kept FDEs")
     rep.rule("entry", "entry = (function address - hdr address, FDE address - hdr address) with checked i32 conversion")
@@ -290,6 +293,8 @@ def run(ctx, rep):
     rep.assume("FDE <-> function correspondence of the input (.eh_frame contents) is the compiler's; decided here is that wild keeps, indexes and sorts what it keeps")
 
 
+    position_accounting(rep, ctx.program(), ctx.facts())
+
 def _gated_by_flag(P, b, bi):
     flow, cfg = P.flow(b), P.cfg(b)
     for fct in cfg.edge_facts().get(bi, ()):
@@ -300,3 +305,93 @@ def _gated_by_flag(P, b, bi):
         if "should_write_eh_frame_hdr" in tr and switch_bool_labels(b, flow, cfg, fct[0]).get(fct[1]) is True:
             return True
     return False
+
+
+def position_accounting(rep, P, F):
+    from mir import callee_key as ck_, field_stores
+    b = F.body("libwild::elf_writer::write_eh_frame_relocations")
+    if b is None:
+        rep.lost("position-accounting", "elf_writer::write_eh_frame_relocations")
+        return
+    flow, cfg = P.flow(b), P.cfg(b)
+    stores = field_stores(b, "eh_frame_start_address")
+    if len(stores) != 1:
+        rep.ob("position-accounting", "one-base-store", False, f"{len(stores)} stores to eh_frame_start_address", b.file, b.line)
+        return
+    sbi, sst = stores[0]
+    # the accumulator: the non-field summand of the Add that feeds the store
+    acc = None
+    for x in flow.origins(sst["rv"]["a"]) if sst["rv"]["k"] == "use" else ():
+        pass
+    adds = []
+    for bi, blk in enumerate(b.blocks):
+        if blk.get("cleanup"):
+            continue
+        for st in blk["s"]:
+            if st["k"] == "assign" and st["rv"]["k"] == "bin" and st["rv"]["op"].startswith("Add"):
+                adds.append((bi, st))
+    src_local = sst["rv"]["a"][1][0] if sst["rv"]["k"] == "use" and sst["rv"]["a"][0] != "k" else None
+    for bi, st in adds:
+        if st["p"][0] == src_local:
+            for side in ("a", "b"):
+                op = st["rv"][side]
+                if op[0] != "k" and ".eh_frame_start_address" not in op[1][1]:
+                    # follow casts / copies back to a multiply-assigned usize local
+                    cur = op
+                    for _ in range(6):
+                        ds = flow.defs.get(cur[1][0], [])
+                        if len(ds) == 1 and ds[0][1] != "call" and ds[0][3]["k"] in ("use", "cast") and ds[0][3]["a"][0] != "k":
+                            cur = ds[0][3]["a"]
+                        else:
+                            break
+                    acc = cur[1][0]
+    rep.ob("position-accounting", "accumulator", acc is not None, f"eh_frame_start_address += <local _{acc} ({b.local_name(acc) if acc is not None else None})>", b.file, sst.get("l"))
+    if acc is None:
+        return
+    # statements that advance the accumulator: acc = Add(acc, n) (possibly through the checked-add tuple)
+    advance = {}   # block -> addend operand
+    for bi, st in adds:
+        a_, b_ = st["rv"]["a"], st["rv"]["b"]
+        if a_[0] != "k" and a_[1] == [acc, []]:
+            tgt = st["p"][0]
+            # result flows back into acc
+            back = any(d[3].get("k") == "use" and d[3]["a"][0] != "k" and d[3]["a"][1][0] == tgt for d in flow.defs.get(acc, []) if d[1] != "call")
+            if back or tgt == acc:
+                advance[bi] = b_
+    takes = [(bi, t) for bi, t in flow.calls() if (ck_(t["f"]) or "").endswith("take_eh_frame_data")]
+    rep.floor("position-accounting", "take_eh_frame_data sites", len(takes), 2)
+    for n, (bi, t) in enumerate(takes):
+        n_src = flow.origins(t["args"][1])
+        matching = {ab for ab, addend in advance.items() if flow.origins(addend) == n_src}
+        if not matching:
+            # idiom B: n = T - acc ... acc = T
+            cur = t["args"][1]
+            for _ in range(6):
+                ds = flow.defs.get(cur[1][0], []) if cur[0] != "k" else []
+                if len(ds) == 1 and ds[0][1] != "call" and ds[0][3]["k"] in ("use", "cast") and ds[0][3]["a"][0] != "k":
+                    cur = ds[0][3]["a"]
+                    continue
+                if len(ds) == 1 and ds[0][1] != "call" and ds[0][3]["k"] == "bin" and ds[0][3]["op"].startswith("Sub"):
+                    # checked-sub tuple: follow `.0`
+                    ta, tb = ds[0][3]["a"], ds[0][3]["b"]
+                    if tb[0] != "k" and tb[1][0] == acc or (tb[0] != "k" and flow.origins(tb) == flow.origins(("c", (acc, [])))):
+                        t_src = flow.origins(ta)
+                        for bi2, blk2 in enumerate(b.blocks):
+                            if blk2.get("cleanup"):
+                                continue
+                            for st2 in blk2["s"]:
+                                if st2["k"] == "assign" and st2["p"] == [acc, []] and st2["rv"]["k"] == "use" and st2["rv"]["a"][0] != "k" and flow.origins(st2["rv"]["a"]) == t_src:
+                                    matching.add(bi2)
+                break
+        skip = True
+        if matching and t.get("to") is not None:
+            r = cfg.reachable_avoiding_edges(t["to"], set(), avoid_blocks=matching)
+            skip = sbi in r
+        rep.ob("position-accounting", f"take#{n}:advances", bool(matching) and not skip,
+               "every path from this take to the base update adds the same length to the accumulator" if matching and not skip else
+               "bytes are taken from the .eh_frame buffer without being added to the running position: every later input section's frames are written at one address "
+               "but described (table entry, pc-relative pc_begin) as being at another", b.file, t["l"])
+    after = cfg.reachable_from(sbi)
+    late = sorted(t["l"] for bi, t in takes if bi in after and bi != sbi)
+    rep.ob("position-accounting", "no-take-after-base-update", not late, "no bytes are taken once eh_frame_start_address was advanced" if not late else
+           f"take_eh_frame_data at line(s) {late} runs after the base was advanced: those bytes are not accounted for", b.file, sst.get("l"))
